@@ -67,3 +67,58 @@ Proof.
   intros H Hr. eapply Inv_reach; [|exact Hr]. apply Inv_initial. eapply Forall_impl; [|exact H]. intros ps Hps.
   eapply Forall_impl; [|exact Hps]. intros p Hp. apply threadsafe_paths_ok. exact Hp.
 Qed.
+
+(* ---- mutual exclusion for the locks that the source only ever takes exclusively ---- *)
+From LB Require Import LockExcl.
+
+Definition excl_only (l : nat) : bool :=
+  forallb (fun ob => match ob with Some s => negb (mentions (AAcq l false) s) | None => true end) body_tab.
+
+Definition mutex_ids : list nat := filter excl_only (seq 0 lock_count).
+
+Lemma excl_only_bodies l : excl_only l = true -> forall f s, body f = Some s -> mentions (AAcq l false) s = false.
+Proof.
+  intros H f s Hb. unfold excl_only in H. rewrite forallb_forall in H. unfold body in Hb.
+  assert (Hin : In (Some s) body_tab).
+  { destruct (Nat.lt_ge_cases f (length body_tab)) as [Hlt|Hge].
+    - rewrite <- Hb. apply nth_In. exact Hlt.
+    - rewrite nth_overflow in Hb by exact Hge. discriminate. }
+  specialize (H _ Hin). cbn in H. apply negb_true_iff in H. exact H.
+Qed.
+
+Definition ts_path (p : list act) : Prop :=
+  exists f, In f (threadsafe_entries ++ thread_mains) /\ run_call body call_depth [] f p.
+
+Lemma no_shared_initial l (tps : list (list (list act))) : excl_only l = true ->
+  Forall (Forall ts_path) tps -> no_shared l (map fresh_thread tps).
+Proof.
+  intros He H t Hin. apply in_map_iff in Hin as (ps & <- & Hps). cbn [fresh_thread th_prog].
+  rewrite Forall_forall in H. specialize (H ps Hps). intro Hc. apply in_concat in Hc as (p & Hp & Hin).
+  rewrite Forall_forall in H. destruct (H p Hp) as (f & _ & Hr).
+  eapply run_call_mentions; [apply excl_only_bodies; exact He|exact Hr|exact Hin].
+Qed.
+
+Lemma HW_initial l (tps : list (list (list act))) : HW l (map fresh_thread tps).
+Proof. intros t Hin. apply in_map_iff in Hin as (ps & <- & _). cbn. split; [constructor|tauto]. Qed.
+
+(* In every configuration reachable by any interleaving of threads running thread-safe API calls and
+   the internal threads, two different threads are never both about to access data guarded by the same
+   mutex. *)
+Theorem mutex_mutual_exclusion (tps : list (list (list act))) pre t mid t' post l g g' p p' :
+  Forall (Forall ts_path) tps ->
+  reach rank guard (map fresh_thread tps) (pre ++ t :: mid ++ t' :: post) ->
+  excl_only l = true -> guard g = Some l -> guard g' = Some l ->
+  th_prog t = AAcc g :: p -> th_prog t' = AAcc g' :: p' -> False.
+Proof.
+  intros Hts Hr He Hg Hg' Hp Hp'.
+  assert (Hinv0 : Inv rank guard (map fresh_thread tps)).
+  { apply Inv_initial. eapply Forall_impl; [|exact Hts]. intros ps Hps. eapply Forall_impl; [|exact Hps].
+    intros q Hq. apply threadsafe_paths_ok. exact Hq. }
+  pose proof (Inv_reach rank guard _ _ Hinv0 Hr) as Hinv.
+  pose proof (Excl_reach rank guard _ _ Hinv0 (Excl_initial tps) Hr) as Hex.
+  destruct (HW_reach rank guard l _ _ (no_shared_initial l tps He Hts) (HW_initial l tps) Hr) as [Hw _].
+  exact (mutual_exclusion rank guard pre t mid t' post l g g' p p' Hinv Hex Hw Hg Hg' Hp Hp').
+Qed.
+
+Lemma mutexes_exist : (10 <= length mutex_ids).
+Proof. vm_compute. repeat constructor. Qed.
